@@ -176,9 +176,160 @@ def c01_stats(rows):
             "distinct": len(distinct), "distinct_nontrivial": nontrivial, "samples": samples}
 
 
+# ------------------------------------------------------------------------------------------
+# known-finding classes D70 / D71 (both found by the proof of C01_roundtrip; Schema/Ops.v carries both behaviours)
+# ------------------------------------------------------------------------------------------
+
+def _vkind(v):
+    """reflect.Kind of a value node, as far as AnySchema.ValidateCompatibility tells kinds apart"""
+    if not isinstance(v, list):
+        return str(v)                       # nil
+    if v[0] in ("i", "f", "s", "b"):
+        t = v[1]
+        return v[0] + ":" + (t if isinstance(t, str) else str(t[2]))
+    return v[0]
+
+
+T_ANY_SLICE = ["slice", "any"]
+T_ANY_MAP = ["map", "any", "any"]
+
+
+def any_clean(v):
+    """Schema/C01Spec.v any_clean on a printed value: every []any is homogeneous by kind, every map[any]any is keyed by
+    int64 only or by string only"""
+    if not isinstance(v, list) or not v:
+        return True
+    if v[0] == "sl":
+        items = v[3:]
+        if not all(any_clean(x) for x in items):
+            return False
+        return v[1] != T_ANY_SLICE or len({_vkind(x) for x in items}) <= 1
+    if v[0] == "m":
+        es = v[3:]
+        if not all(any_clean(e[0]) and any_clean(e[1]) for e in es):
+            return False
+        if v[1] != T_ANY_MAP:
+            return True
+        ks = {_vkind(e[0]) for e in es}
+        return len(ks) == 0 or ks == {"i:i64"} or ks == {"s:str"}
+    return True
+
+
+def _has_oneof_over_any(schema):
+    t = show(schema)
+    return "(oneof " in t and re.search(r"[ (]any[ )]", t) is not None
+
+
+def _named_inlined_discriminators(schema):
+    """field names of the inlined one-ofs that have a member whose discriminator property is a NAMED string enum"""
+    objs = {}
+
+    def collect(n):
+        if isinstance(n, list):
+            if head(n) == "scope":
+                for o in n[1]:
+                    objs[o[0][1]] = o[1]
+            for c in n:
+                collect(c)
+    collect(schema)
+    out = set()
+
+    def member_obj(t, depth=0):
+        while isinstance(t, list) and depth < 20:
+            depth += 1
+            if head(t) == "ref":
+                t = objs.get(t[1][1])
+            elif head(t) == "scope":
+                t = {o[0][1]: o[1] for o in t[1]}.get(t[2][1])
+            else:
+                break
+        return t if head(t) == "object" else None
+
+    def walk(n):
+        if not isinstance(n, list):
+            return
+        if head(n) == "oneof" and len(n) == 5 and n[4] == "1":
+            field = n[3][1]
+            for m in n[2]:
+                o = member_obj(m[1])
+                if o is None:
+                    continue
+                for name, p in o[3]:
+                    if name[1] == field and head(p[1]) == "enum_str" and p[1][1] != "none":
+                        out.add(field)
+        for c in n:
+            walk(c)
+    walk(schema)
+    return out
+
+
+def _carries_named_discriminator(v, fields):
+    """the value holds a map entry FIELD -> a string of a named type"""
+    if not isinstance(v, list) or not v:
+        return False
+    if v[0] == "m":
+        for e in v[3:]:
+            k, x = e[0], e[1]
+            if head(k) == "s" and isinstance(k[2], tuple) and k[2][1] in fields and head(x) == "s" and isinstance(x[1], list) and x[1][0] == "named":
+                return True
+            if _carries_named_discriminator(x, fields):
+                return True
+        return False
+    if v[0] == "sl":
+        return any(_carries_named_discriminator(x, fields) for x in v[3:])
+    return False
+
+
+def _class_match(case, obs, pred, in_class):
+    """every failure of the property in the case is `Unserialize accepted, Validate / Serialize of its result return an
+    error`, lies in the class, and the whole observation is what the faithful model predicts (error paths aside)"""
+    if not obs.startswith("(r ") or not pred.startswith("(r "):
+        return False
+    if _P.strip_err_paths(obs) != _P.strip_err_paths(pred):
+        return False
+    pl = parse(case)[3]
+    if head(pl) != "sch":
+        return False
+    o = parse(obs)
+    hits = 0
+    for i, ob in enumerate(o[1:]):
+        if rt_reason(ob) is None:
+            continue
+        if not (len(ob) >= 4 and _ok(ob[1]) and head(ob[2]) in ("ok", "err") and head(ob[3]) in ("ok", "err")
+                and (head(ob[2]) == "err" or head(ob[3]) == "err")):
+            return False
+        if in_class(pl[2], ob[1][1]):
+            hits += 1
+        elif not any(c(pl[2], ob[1][1]) for c in (_class_d70, _class_d71)):
+            return False                     # a failure outside both recorded classes: never hidden
+    return hits > 0
+
+
+def _class_d70(schema, n):
+    return _has_oneof_over_any(schema) and not any_clean(n)
+
+
+def _class_d71(schema, n):
+    fields = _named_inlined_discriminators(schema)
+    return bool(fields) and _carries_named_discriminator(n, fields)
+
+
+def kf_oneof_any_heterogeneous(m, case, obs, pred):
+    """D70: under a one-of whose member reaches `any` data, Unserialize returned data that is not any_clean"""
+    return _class_match(case, obs, pred, _class_d70)
+
+
+def kf_inlined_named_discriminator(m, case, obs, pred):
+    """D71: an inlined one-of whose member's discriminator property is a typed (named) string enum, and the
+    unserialized value carries that named string as the discriminator"""
+    return _class_match(case, obs, pred, _class_d71)
+
+
 def register(props):
     global _P
     _P = props
+    props.KNOWN_PREDICATES["c01_oneof_any_heterogeneous"] = kf_oneof_any_heterogeneous
+    props.KNOWN_PREDICATES["c01_inlined_named_discriminator"] = kf_inlined_named_discriminator
     for fam in ("structured", "c01rt", "c01typed", "c01typedobj"):
         props.FAMILY_STATS[fam] = c01_stats
     props.DIRECT[("C01", "structured")] = c01_rt_direct
@@ -198,12 +349,17 @@ def register(props):
     props.agree = agree
     props.PROPS["C01"] = {
         "theory": "Properties/C01.v",
-        "families": ["structured", "c01rt", "c01typed", "c01typedobj"],
+        "families": ["structured", "c01rt", "c01typed", "c01typedobj", "structobj"],
         "rule": "structured / c01rt: generated schemas (all kinds, scopes with references, one-of inlined or not, units, defaults) x raw values "
                 "generated from the schema; c01rt re-expresses each accepted value in every decoder representation; each `rt` op is the whole "
                 "chain Unserialize, Validate, Serialize, re-Unserialize, re-Serialize, real cbor.Marshal/Unmarshal, Unserialize; c01typed / "
                 "c01typedobj: every typed constructor's UnserializeType / ValidateType / SerializeType against the untyped call on the same "
-                "instance; distinct by case text; non-trivial = accepted by Unserialize and not a bare scalar",
+                "instance; structobj: struct-mapped objects (lib/props_struct.py). Input classes switched on for these families "
+                "(harness gen_rich.go): integers at the edges of int64 and of the 2^53 / 2^31 / 2^24 / 2^8 windows (also as uint64, the CBOR "
+                "form), strings generated by rune count with multi-byte characters, unit strings built from the schema's own unit definition "
+                "(zero counts, totals at the int64 edge), structured any values with empty lists and maps; c01rt additionally: heterogeneous "
+                "any data and one-of members with any-typed properties (D70), inlined discriminators of every admissible property type incl. "
+                "a named string enum (D71); distinct by case text; non-trivial = accepted by Unserialize and not a bare scalar",
         "assumptions": ["no two entries of one raw map denote the same key under the schema at that position (Schema/C01Spec.v distinct_in; D19, a "
                         "known-finding class of C12); necessary: C01_roundtrip_collision_refuted",
                         "every integer of the unserialized value lies in the range of its Go type (ints_in_range: true of every Go value)",
